@@ -41,6 +41,17 @@ def run(ctx, res):
         return True
 
     parsercheck.apply(ctx, res, ["C01.lang", "E2."], strict_only=True, key_filter=printable, rename="C04.reparse")
+
+    # ... and must decode it back to the value that was printed: output-channel findings of the product (a character, a number
+    # spelling, the structure decoded differently from what the text says) on inputs the printer can write
+    def writable(f, strict):
+        w = f.get("witness") if isinstance(f.get("witness"), str) else ""
+        if re.search(r"\\u(?!00)[0-9a-fA-F]{4}", w) or re.search(r"\\/", w):
+            return "the printer never writes this escape: decoding it is C02's business"
+        return None
+
+    res.rules_run.append("C04.reparse-value (what the strict parser decodes from a text the printer can write is that text's abstract content: product findings on the output channels, witnesses restricted to the printer's syntax)")
+    parsercheck.apply(ctx, res, ["C02."], strict_only=True, finding_filter=writable, rename="C04.reparse-value")
     res.assumptions.append("equality of the re-parsed value is the composition of these clauses with C01/C02 (P = R): an argument, not a mechanised proof")
     res.trusted += ["Display for json_number::Number prints the stored text", "summary table (fmt entry points, iterators)", "RFC 8259 section 7 decoder in jsv/tables.py"]
 
